@@ -222,13 +222,13 @@ Proof.
   { intros ph f f' si out Hph Hm Hlt Hf Hf' Hsi HI. unfold quantum_step.
     destruct (quantum_at si out Hsi HI) as (nsi & o & err & E & B1 & B2 & B3 & B4 & B5).
     rewrite E. destruct err as [k0|]; [reflexivity|].
-    apply (IH (m - 1)%nat); try lia. exact Hph. apply B4. reflexivity. }
+    apply (IH (m - 1)%nat); [lia|exact Hph|lia|lia|lia|lia|apply B4; reflexivity]. }
   assert (P3 : forall f f' si out, (Z.to_nat (srclen - si) <= m)%nat ->
      (m + 1 <= f)%nat -> (m + 1 <= f')%nat -> 0 <= si <= srclen -> Inv (lenZ out) si ->
      dec_loop f e dcap src 3 si out = dec_loop f' e dcap src 3 si out).
   { intros f f' si out Hm Hf Hf' Hsi HI. destruct f as [|f]; [lia|]. destruct f' as [|f']; [lia|].
     rewrite !dec_loop_3. fold srclen. destruct (Z.ltb_spec si srclen) as [Hlt|Hge]; [|reflexivity].
-    apply PQ; try lia; auto. }
+    apply PQ; [right; right; reflexivity|lia|lia|lia|lia|lia|exact HI]. }
   assert (P2 : forall f f' si out, (Z.to_nat (srclen - si) <= m)%nat ->
      (m + 2 <= f)%nat -> (m + 1 <= f')%nat -> 0 <= si <= srclen -> Inv (lenZ out) si ->
      dec_loop f e dcap src 2 si out = dec_loop f' e dcap src 3 si out).
@@ -238,18 +238,19 @@ Proof.
     apply andb_true_iff in G. destruct G as [G1 G2]. apply Z.leb_le in G1, G2. cbv zeta.
     pose proof (skipn_lenZ src si Hsi) as Hl. fold srclen in Hl.
     destruct (list_take4 (skipn (Z.to_nat si) src)) as (c0 & c1 & c2 & c3 & r & Hs); [lia|].
-    rewrite Hs. cbn [firstn map].
+    rewrite Hs. cbn [firstn].
+    change (map (dmap e) [c0; c1; c2; c3]) with [dmap e c0; dmap e c1; dmap e c2; dmap e c3].
     destruct f' as [|f']; [lia|]. rewrite dec_loop_3. fold srclen.
     destruct (Z.ltb_spec si srclen) as [Hlt|Hge]; [|lia].
     destruct (all_valid [dmap e c0; dmap e c1; dmap e c2; dmap e c3]) eqn:Hav.
-    - apply all_valid_in in Hav; [|repeat constructor; apply dmap_range; exact Hok].
+    - apply all_valid_in in Hav; [|repeat (apply Forall_cons; [apply dmap_range; exact Hok|]); apply Forall_nil].
       inversion Hav as [|? ? R0 Hav1]; subst. inversion Hav1 as [|? ? R1 Hav2]; subst.
       inversion Hav2 as [|? ? R2 Hav3]; subst. inversion Hav3 as [|? ? R3 _]; subst.
       rewrite asm32_bytes by assumption.
       unfold quantum_step. rewrite (quantum_fast _ si c0 c1 c2 c3 r Hs) by lia.
-      apply (IH (m - 4)%nat); try lia. right; left; reflexivity.
+      apply (IH (m - 4)%nat); [lia|right; left; reflexivity|lia|lia|lia|lia|].
       rewrite lenZ_app, lenZ_dq_bytes. apply Inv_fast; auto.
-    - apply PQ; try lia; auto. }
+    - apply PQ; [right; left; reflexivity|lia|lia|lia|lia|lia|exact HI]. }
   assert (P1 : forall f f' si out, (Z.to_nat (srclen - si) <= m)%nat ->
      (m + 3 <= f)%nat -> (m + 1 <= f')%nat -> 0 <= si <= srclen -> Inv (lenZ out) si ->
      dec_loop f e dcap src 1 si out = dec_loop f' e dcap src 3 si out).
@@ -259,11 +260,13 @@ Proof.
     apply andb_true_iff in G. destruct G as [G1 G2]. apply Z.leb_le in G1, G2. cbv zeta.
     pose proof (skipn_lenZ src si Hsi) as Hl. fold srclen in Hl.
     destruct (list_take8 (skipn (Z.to_nat si) src)) as (c0 & c1 & c2 & c3 & c4 & c5 & c6 & c7 & r & Hs); [lia|].
-    rewrite Hs. cbn [firstn map].
+    rewrite Hs. cbn [firstn].
+    change (map (dmap e) [c0; c1; c2; c3; c4; c5; c6; c7]) with
+      [dmap e c0; dmap e c1; dmap e c2; dmap e c3; dmap e c4; dmap e c5; dmap e c6; dmap e c7].
     destruct f' as [|f']; [lia|]. rewrite dec_loop_3. fold srclen.
     destruct (Z.ltb_spec si srclen) as [Hlt|Hge]; [|lia].
     destruct (all_valid [dmap e c0; dmap e c1; dmap e c2; dmap e c3; dmap e c4; dmap e c5; dmap e c6; dmap e c7]) eqn:Hav.
-    - apply all_valid_in in Hav; [|repeat constructor; apply dmap_range; exact Hok].
+    - apply all_valid_in in Hav; [|repeat (apply Forall_cons; [apply dmap_range; exact Hok|]); apply Forall_nil].
       inversion Hav as [|? ? R0 Hav1]; subst. inversion Hav1 as [|? ? R1 Hav2]; subst.
       inversion Hav2 as [|? ? R2 Hav3]; subst. inversion Hav3 as [|? ? R3 Hav4]; subst.
       inversion Hav4 as [|? ? R4 Hav5]; subst. inversion Hav5 as [|? ? R5 Hav6]; subst.
@@ -277,12 +280,31 @@ Proof.
       unfold quantum_step. rewrite (quantum_fast _ (si + 4) c4 c5 c6 c7 r Hs4);
         [|lia|lia|lia|lia|rewrite lenZ_app, lenZ_dq_bytes; lia].
       replace (si + 4 + 4) with (si + 8) by lia. rewrite <- app_assoc.
-      apply (IH (m - 8)%nat); try lia. left; reflexivity.
+      apply (IH (m - 8)%nat); [lia|left; reflexivity|lia|lia|lia|lia|].
       rewrite !lenZ_app, !lenZ_dq_bytes.
       replace (lenZ out + (3 + 3)) with (lenZ out + 3 + 3) by lia.
       replace (si + 8) with (si + 4 + 4) by lia. apply Inv_fast; auto. apply Inv_fast; auto.
-    - apply PQ; try lia; auto. }
+    - apply PQ; [left; reflexivity|lia|lia|lia|lia|lia|exact HI]. }
   intros p f f' si out [-> | [-> | ->]] Hm Hf Hf' Hsi HI; [apply P1|apply P2|apply P3]; auto; lia.
+Qed.
+
+(* the slow loop with a fixed (sufficient) amount of fuel *)
+Lemma slow_unfold : forall f si out, (Z.to_nat srclen + 1 <= f)%nat -> 0 <= si <= srclen ->
+  Inv (lenZ out) si ->
+  exists nsi o err, decodeQuantum e (dcap - lenZ out) src si = QOk nsi o err /\
+    si <= nsi <= srclen /\ (si < srclen -> si < nsi) /\ (err = None -> Inv (lenZ (out ++ o)) nsi) /\
+    dec_loop f e dcap src 3 si out =
+    if si <? srclen then
+      match err with Some _ => DOk (out ++ o) err | None => dec_loop f e dcap src 3 nsi (out ++ o) end
+    else DOk out None.
+Proof.
+  intros f si out Hf Hsi HI.
+  destruct (quantum_at si out Hsi HI) as (nsi & o & err & E & B1 & B2 & B3 & B4 & B5).
+  exists nsi, o, err. split; [exact E|]. split; [exact B1|]. split; [exact B2|]. split; [exact B4|].
+  destruct f as [|f0]; [lia|]. rewrite (dec_loop_3 f0 e dcap src si out). fold srclen.
+  destruct (Z.ltb_spec si srclen) as [Hlt|Hge]; [|reflexivity].
+  unfold quantum_step. rewrite E. destruct err as [k0|]; [reflexivity|].
+  apply (phase_eq (Z.to_nat (srclen - nsi))); [right; right; reflexivity|lia|lia|lia|lia|apply B4; reflexivity].
 Qed.
 
 End Loop.
